@@ -1174,6 +1174,16 @@ class Compiler:
             if sf is None:
                 raise Unsupported(f'static {sname} not in dump')
             return lambda fr: ex.static_ref(sf)
+        mp = re.search(r'::promoted\[(\d+)\]$', c)
+        if mp:
+            # a promoted constant belongs to the function being compiled
+            base, dup = fn.name, ''
+            md = re.search(r'#(\d+)$', base)
+            if md and not base.endswith('}'):
+                base, dup = base[:md.start()], base[md.start():]
+            f = ex.fns.get((fn.crate, f'{base}::promoted[{mp.group(1)}]{dup}')) or ex.fns.get((fn.crate, f'{base}::promoted[{mp.group(1)}]'))
+            if f is not None:
+                return lambda fr, f=f: copy_val(ex.const_value(f))
         # named const / promoted / unit-like variant / fn item written as a path
         name = strip_generics(c)
         cands = [name]
